@@ -151,7 +151,7 @@ func c12Invalids() []c12Invalid {
 }
 
 func c12Units(thorough bool) []*explore.Unit {
-	var units []*explore.Unit
+	units := c12WUnits(thorough)
 	for _, inv := range c12Invalids() {
 		for _, warm := range []bool{false, true} {
 			inv, warm := inv, warm
